@@ -416,6 +416,16 @@ impl ApplicationHeader {
                     });
                 }
 
+                if !matches!(block2.len(), 17 | 18 | 21) {
+                    return Err(ParseError::InvalidBlockStructure {
+                        block: "2".to_string(),
+                        message: format!(
+                            "Input Block 2 must be 17, 18 or 21 characters, got {}",
+                            block2.len()
+                        ),
+                    });
+                }
+
                 let raw_destination_address = block2[4..16].to_string();
                 let priority = block2[16..17].to_string();
 
@@ -500,6 +510,16 @@ impl ApplicationHeader {
                         block: "2".to_string(),
                         message: format!(
                             "Output Block 2 too short: expected at least 46 characters, got {}",
+                            block2.len()
+                        ),
+                    });
+                }
+
+                if block2.len() > 47 {
+                    return Err(ParseError::InvalidBlockStructure {
+                        block: "2".to_string(),
+                        message: format!(
+                            "Output Block 2 must be 46 or 47 characters, got {}",
                             block2.len()
                         ),
                     });
